@@ -15,7 +15,13 @@ RULE = ("cases = generated classes with 1-2 scalar lists (2-3 bit elements; fixe
         "elements) of every list after a successful call lies in the reference solution set enumerated over sizes 0..4 x "
         "element values; S_ref non-empty => no failure, empty => SolveFailure; len(l) == l.size == len(list(l)); l[i] == "
         "i-th iterated value; a fixed-size list keeps its length; later edits act on exactly the exposed list (model = "
-        "Python list).  non-trivial = a returned list has length >= 2 and some statement couples two elements or size and "
+        "Python list).  A 'big list' family goes beyond what can be enumerated: fixed-size lists of 3-10 elements of 4-32 "
+        "bits (both signednesses) generated solution-first (hidden assignment v*, every statement - foreach by item / index "
+        "/ neighbour, sum in narrow and wide contexts, unique, membership, constant subscripts, element slices, if/else on "
+        "the index - kept only if the reference says it holds at v*): calls must return a state the reference accepts, "
+        "and v* plus perturbations of it (bit flip, boundary value, swap, copy, +-1; chosen so that the reference rejects "
+        "some and accepts one) are pinned inline and must be accepted / rejected exactly as the reference says.  "
+        "non-trivial = a returned list has length >= 2 and some statement couples two elements or size and "
         "elements; distinct = distinct canonical case")
 ASSUMPTIONS = [
     "index arithmetic only under the index guards the documentation/tests use; an unguarded out-of-range subscript is user error and not generated",
@@ -379,6 +385,8 @@ def const_subscripts_ok(stmts, cur, lists):
 def run_case(case):
     if case.get("objlist"):
         return run_objlist(case)
+    if case.get("biglist"):
+        return run_biglist(case)
     prog = case["prog"]
     cls = prog["classes"][0]
     lists = cls["lists"]
@@ -720,6 +728,353 @@ def run_objlist(case):
     return [], info
 
 
+# ------------------------------------------------------------------------------------------------
+# family: BIG lists - 3..10 elements of 4..32 bits (both signednesses).  The solution set cannot be enumerated, so the
+# class is generated solution-first: a hidden assignment v* (scalar + every element) is drawn, and every statement is
+# kept only if the reference says it holds at v*.  The system is satisfiable by construction; v* and perturbations of
+# it (one bit of one element flipped, an element moved to a type boundary, two elements swapped) are pinned through
+# inline constraints and must be accepted / rejected exactly as the reference says.
+BIG_W = [4, 5, 8, 8, 12, 16, 16, 31, 32]
+
+
+def _fits_lit(v):
+    return -(1 << 31) <= v < (1 << 31)
+
+
+def _lit_for(d, v, t):
+    """a literal denoting v written the way a user would: plain int when it fits and the element is narrow enough for
+    the 32-bit signed literal not to change the comparison, else a sized literal of the element's own type"""
+    if _fits_lit(v) and t["w"] <= 31 and d.chance(70):
+        return ["lit", v]
+    return ["slit", v, t["w"]] if t["signed"] else ["ulit", v, t["w"]]
+
+
+def apply_pert(p, s0, vs, et, st_t):
+    """-> (s0, elements) after perturbation p, or None if p is not a perturbation (structural reduction)"""
+    vs = list(vs)
+    n = len(vs)
+    lo_t, hi_t = sem.type_range(et)
+    try:
+        if p[0] == "flip":
+            vs[p[1] % n] = sem.wrap((vs[p[1] % n] & sem.mask(et["w"])) ^ (1 << (p[2] % et["w"])), et["w"], et["signed"])
+        elif p[0] == "bound":
+            vs[p[1] % n] = hi_t if p[2] else lo_t
+        elif p[0] == "swap":
+            a, b = p[1] % n, p[2] % n
+            vs[a], vs[b] = vs[b], vs[a]
+        elif p[0] == "copy":
+            vs[p[1] % n] = vs[p[2] % n]
+        elif p[0] == "add":
+            vs[p[1] % n] = sem.wrap(vs[p[1] % n] + (1 if p[2] else -1), et["w"], et["signed"])
+        elif p[0] == "s0":
+            s0 = sem.wrap((s0 & sem.mask(st_t["w"])) ^ (1 << (p[1] % st_t["w"])), st_t["w"], st_t["signed"])
+        else:
+            return None
+    except (TypeError, IndexError):
+        return None
+    return s0, vs
+
+
+@hyp.composite
+def biglist_cases(d):
+    w = d.choice(BIG_W)
+    sg = d.chance(30)
+    n = d.randint(3, 10)
+    et = {"kind": "int" if sg else "bit", "w": w, "signed": sg}
+    lo, hi = sem.type_range(et)
+    style = d.randint(0, 3)
+    # hidden solution: small values, spread values, sorted values, values near the top of the type (sums that need
+    # the carry bits)
+    if style == 0:
+        vs = [d.randint(max(lo, -8), min(hi, 15)) for _ in range(n)]
+    elif style == 1:
+        vs = [d.randint(lo, hi) for _ in range(n)]
+    elif style == 2:
+        vs = sorted(d.randint(lo, hi) for _ in range(n))
+        if d.chance(50):
+            vs.reverse()
+    else:
+        vs = [hi - d.randint(0, 3) for _ in range(n)]
+    ws = d.choice([w, w, max(1, w - 2), min(64, w + 4), 8, 32])
+    ssg = d.chance(30)
+    st = {"kind": "int" if ssg else "bit", "w": ws, "signed": ssg}
+    slo, shi = sem.type_range(st)
+    s0 = d.choice(vs) if (d.chance(40) and slo <= vs[0] <= shi) else d.randint(slo, shi)
+    if not (slo <= s0 <= shi):
+        s0 = d.randint(slo, shi)
+    n0 = d.randint(0, n)
+    fields = [dict(st, name="s0", rand=True, init=0),
+              {"name": "n0", "kind": "bit", "w": 4, "signed": False, "rand": False, "init": n0}]
+    l = {"name": "l", "elem": et, "mode": "fixed", "size": n, "init": [0] * n}
+    lists = [l]
+    mlist = None
+    if d.chance(30):
+        # a non-random list of the same element type: constants that foreach bodies compare with by index
+        mlist = {"name": "m", "elem": et, "mode": "nonrand", "size": n, "init": [d.randint(lo, hi) if d.chance(50) else vs[i] for i in range(n)]}
+        lists.append(mlist)
+    types = {"s0": fields[0], "n0": fields[1], "l[]": et}
+    env = {"s0": s0, "n0": n0, "#l": n}
+    for i, v in enumerate(vs):
+        env["l[%d]" % i] = v
+    if mlist:
+        types["m[]"] = et
+        env["#m"] = n
+        for i, v in enumerate(mlist["init"]):
+            env["m[%d]" % i] = v
+    c = sem.Ctx(types, env)
+    it = ["it", "it"]
+    eli = el("l", ["iv", "i"])
+    CM = ["==", "!=", "<", "<=", ">", ">="]
+
+    def sized(e):
+        bits, w_ = sem.ev(e, c)
+        sg_ = sem.signed(e, c)
+        return ["slit", sem.to_signed(bits, w_), w_] if sg_ else ["ulit", bits, w_]
+
+    def first_op(make, ops=CM):
+        """the statement make(op) for the first op, in a drawn order, with which it holds at the hidden solution"""
+        ops = d.sample(ops, len(ops))
+        for op in ops:
+            s_ = make(op)
+            try:
+                if sem.holds(s_, c):
+                    return s_
+            except KeyError:
+                pass
+        return make(ops[0])
+
+    def cand():
+        r = d.randint(0, 99)
+        if r < 14:
+            k = d.choice([min(vs), max(vs), d.choice(vs), d.choice(vs) + d.randint(-2, 2)])
+            k = max(lo, min(hi, k))
+            kl = _lit_for(d, k, et)
+            return first_op(lambda op: ["foreach", "l", None, "it", [["expr", ["bin", op, it, kl]]]])
+        if r < 26:
+            return first_op(lambda op: ["foreach", "l", "i", None, [["if", [[["bin", ">", ["iv", "i"], L(0)],
+                                                                              [["expr", ["bin", op, eli, el("l", ["bin", "-", ["iv", "i"], L(1)])]]]]], None]]])
+        if r < 34:
+            k = d.randint(-2, 3)
+            rhs = ["iv", "i"] if k == 0 else ["bin", "+", ["iv", "i"], L(k)] if k > 0 else ["bin", "-", ["iv", "i"], L(-k)]
+            return first_op(lambda op: ["foreach", "l", "i", None, [["expr", ["bin", op, eli, rhs]]]])
+        if r < 52:
+            e = ["sum", "l"]
+            if d.chance(30):
+                e = ["bin", d.choice(["+", "-"]), e, ["f", d.choice(["s0", "n0"])]]
+            k = d.randint(0, 99)
+            if k < 45:
+                return ["expr", ["bin", d.choice(["==", "<=", ">="]), e, sized(e)]]
+            if k < 60:
+                return first_op(lambda op: ["expr", ["bin", op, e, ["f", "s0"]]])
+            if k < 80:
+                tot = sum(vs) + d.randint(-3, 3)
+                rhs = L(tot) if _fits_lit(tot) else sized(e)
+                return first_op(lambda op: ["expr", ["bin", op, e, rhs]])
+            rhs = ["ulit", d.randint(0, (1 << min(w, 16)) - 1), d.choice([w, w + 1, w + 2, w + 4])]
+            return first_op(lambda op: ["expr", ["bin", op, e, rhs]], ["<", "<=", ">", ">=", "!="])
+        if r < 60:
+            return ["uniql", "l"]
+        if r < 68:
+            return ["expr", ["inl", ["f", "s0"], "l"]]
+        if r < 80:
+            a, b = d.randint(0, n - 1), d.randint(0, n - 1)
+            e = ["bin", d.choice(["+", "-", "^", "&", "|"]), el("l", L(a)), el("l", L(b))]
+            if d.chance(50):
+                return ["expr", ["bin", d.choice(["==", "<=", ">=", "!="]), e, sized(e)]]
+            return first_op(lambda op: ["expr", ["bin", op, el("l", L(a)), el("l", L(b))]])
+        if r < 88:
+            hi_ = d.randint(0, w - 1)
+            lo_ = d.randint(max(0, hi_ - 7), hi_)
+            k = d.choice([(v & sem.mask(w)) >> lo_ & sem.mask(hi_ - lo_ + 1) for v in vs])
+            return first_op(lambda op: ["foreach", "l", "i", None, [["expr", ["bin", op, ["pse", eli, hi_, lo_], L(k)]]]], ["==", "!=", "<=", ">="])
+        if r < 94 and mlist:
+            return first_op(lambda op: ["foreach", "l", "i", None, [["expr", ["bin", op, eli, el("m", ["iv", "i"])]]]])
+        # if/else on the index against the constant n0 (folded before solving)
+        k1 = _lit_for(d, d.choice(vs), et)
+        k2 = _lit_for(d, d.choice(vs), et)
+        cop = d.choice(["<", "<=", ">", "=="])
+        has_else = d.chance(70)
+        op2 = d.choice(CM)
+        return first_op(lambda op: ["foreach", "l", "i", None, [["if", [[["bin", cop, ["iv", "i"], ["f", "n0"]],
+                                                                           [["expr", ["bin", op, eli, k1]]]]],
+                                                                   [["expr", ["bin", op2, eli, k2]]] if has_else else None]]])
+
+    stmts = []
+    tries = 0
+    want = d.randint(1, 4)
+    while len(stmts) < want and tries < 24:
+        tries += 1
+        s_ = cand()
+        try:
+            ok = sem.holds(s_, c)
+        except KeyError:
+            ok = False
+        if ok:
+            stmts.append(s_)
+    if not stmts:
+        stmts.append(["foreach", "l", None, "it", [["expr", ["bin", "<=", it, _lit_for(d, max(vs), et)]]]])
+    cls = {"name": "T", "fields": fields, "lists": lists, "blocks": [{"name": "c0", "stmts": stmts}]}
+    # perturbations of the hidden solution to pin: up to two the reference rejects (preferably ones that falsify
+    # different statements) and one it still accepts
+    perts = []
+    nonm, memb, seen_bad = 0, 0, set()
+    for _ in range(10):
+        k = d.randint(0, 5)
+        if k == 0:
+            p_ = ["flip", d.randint(0, n - 1), d.randint(0, w - 1)]
+        elif k == 1:
+            p_ = ["bound", d.randint(0, n - 1), d.randint(0, 1)]
+        elif k == 2:
+            p_ = ["swap", d.randint(0, n - 1), d.randint(0, n - 1)]
+        elif k == 3:
+            p_ = ["copy", d.randint(0, n - 1), d.randint(0, n - 1)]
+        elif k == 4:
+            p_ = ["add", d.randint(0, n - 1), d.randint(0, 1)]
+        else:
+            p_ = ["s0", d.randint(0, ws - 1)]
+        ps0, pvs = apply_pert(p_, s0, vs, et, st)
+        if ps0 == s0 and pvs == vs:
+            continue
+        env2 = dict(env, s0=ps0)
+        for i, v in enumerate(pvs):
+            env2["l[%d]" % i] = v
+        bad = sem.first_false(stmts, types, env2)
+        if bad is None:
+            if memb < 1:
+                memb += 1
+                perts.append(p_)
+        elif nonm < 2 and (bad not in seen_bad or d.chance(30)):
+            nonm += 1
+            seen_bad.add(bad)
+            perts.append(p_)
+        if nonm >= 2 and memb >= 1:
+            break
+    return {"biglist": True, "prog": {"enums": {}, "classes": [cls]}, "vstar": {"s0": s0, "l": vs},
+            "calls": [d.seed() for _ in range(d.randint(1, 3))], "perts": perts, "pseed": d.seed()}
+
+
+def big_text(case):
+    cls = case["prog"]["classes"][0]
+    return render.program_source(case["prog"]) + "# constants: %s\n# hidden solution: %s  probes: %s" % (
+        cjson({l_["name"]: l_["init"] for l_ in cls["lists"] if l_["mode"] == "nonrand"} | {"n0": cls["fields"][1]["init"]}),
+        cjson(case["vstar"]), cjson(case["perts"]))
+
+
+def run_biglist(case):
+    info = {"returned": 0, "len2": False, "probes": 0, "probe_member": 0, "probe_nonmember": 0}
+    prog = case["prog"]
+    cls = prog["classes"][0]
+    stmts = cls["blocks"][0]["stmts"]
+    lists = cls["lists"]
+    l = lists[0]
+    et = l["elem"]
+    n = l["size"]
+    vstar = case["vstar"]
+    if len(vstar["l"]) != n or len(l["init"]) != n or not all(sem.well_formed(s) for s in stmts) or not stmts or \
+            any(len(x["init"]) != x["size"] for x in lists):
+        return [], info
+    fields = cls["fields"]
+    types = {f["name"]: f for f in fields}
+    consts = {"n0": fields[1]["init"]}
+    for x in lists:
+        types[x["name"] + "[]"] = x["elem"]
+    base_env = dict(consts)
+    for x in lists:
+        base_env["#" + x["name"]] = x["size"]
+        if x["mode"] == "nonrand":
+            for i, v in enumerate(x["init"]):
+                base_env["%s[%d]" % (x["name"], i)] = v
+
+    def env_of(s0, vs):
+        env = dict(base_env, s0=s0)
+        for i, v in enumerate(vs):
+            env["l[%d]" % i] = v
+        return env
+
+    def Vb(kind, detail, extra):
+        return {"property": PROPERTY, "kind": kind, "detail": detail, "case": case, "text": big_text(case) + "\n# " + extra}
+    try:
+        if not sem.all_hold(stmts, types, env_of(vstar["s0"], vstar["l"])):
+            return [], info      # (left behind by structural reduction: the hidden solution no longer is one)
+    except (KeyError, ValueError, IndexError):
+        return [], info
+    reset_library()
+    try:
+        ns = render.build(prog)
+        obj = ns["T"]()
+        obj.n0 = consts["n0"]
+        for x in lists:
+            if x["mode"] == "nonrand":
+                lo_ = getattr(obj, x["name"])
+                for i, v in enumerate(x["init"]):
+                    lo_[i] = v
+    except Exception as e:
+        reset_library()
+        return [Vb("library_exception", "construction: " + exc_sig(e), repr(e)[:300])], info
+
+    def read():
+        lo_ = obj.l
+        itv = [int(x) for x in lo_]
+        ix = [int(lo_[i]) for i in range(len(lo_))]
+        return int(obj.s0), itv, ix, len(lo_), lo_.size
+
+    for seed in case["calls"]:
+        st, exc = flat.do_call(ns, obj, "randomize", None, seed)
+        where = "randomize(seed=%d)" % seed
+        if st == "exc":
+            reset_library()
+            return [Vb("library_exception", "randomize: " + exc.sig, where + " raised %r" % (exc,))], info
+        if st == "sf":
+            return [Vb("spurious_solve_failure", "randomize", where + " raised SolveFailure although the hidden assignment is a solution")], info
+        info["returned"] += 1
+        s0, itv, ix, ln, sz = read()
+        if not (ln == sz == len(itv) == n):
+            return [Vb("length_disagree" if ln != n else "fixed_size_changed", "len(), size and iteration disagree / fixed-size list changed length",
+                       where + ": len=%d size=%d iterated=%d declared=%d" % (ln, sz, len(itv), n))], info
+        if itv != ix:
+            return [Vb("index_iter_disagree", "indexing and iteration disagree", where + ": %s vs %s" % (ix, itv))], info
+        if any(not sem.in_type(v, et) for v in itv) or not sem.in_type(s0, types["s0"]):
+            return [Vb("element_out_of_type", "l", where + ": s0=%d l=%s" % (s0, itv))], info
+        for x in lists:
+            if x["mode"] == "nonrand" and [int(v) for v in getattr(obj, x["name"])] != x["init"]:
+                return [Vb("nonrandom_list_changed", "a non-random list changed", where)], info
+        bad = sem.first_false(stmts, types, env_of(s0, itv))
+        if bad is not None:
+            return [Vb("list_constraint_violated", "a list constraint does not hold on the list the user sees",
+                       where + " returned s0=%d l=%s; statement #%d is false over exactly these elements" % (s0, itv, bad))], info
+        info["len2"] = True
+
+    # pinned probes
+    st_t = types["s0"]
+    probes = [("hidden solution", vstar["s0"], list(vstar["l"]))]
+    for p in case["perts"]:
+        r_ = apply_pert(p, vstar["s0"], vstar["l"], et, st_t) if isinstance(p, list) and p else None
+        if r_ is not None:
+            probes.append((cjson(p), r_[0], r_[1]))
+    for label, s0, vs in probes:
+        exp = sem.all_hold(stmts, types, env_of(s0, vs))
+        pins = [["expr", ["bin", "==", ["f", "s0"], flat.pin_literal(st_t, s0)]]]
+        for i, v in enumerate(vs):
+            pins.append(["expr", ["bin", "==", el("l", L(i)), flat.pin_literal(et, v)]])
+        st, exc = flat.do_call(ns, obj, "randomize_with", pins, case["pseed"])
+        info["probes"] += 1
+        info["probe_member" if exp else "probe_nonmember"] += 1
+        desc = "pin s0=%d l=%s (%s)" % (s0, vs, label)
+        if st == "exc":
+            reset_library()
+            return [Vb("library_exception", "pinned probe: " + exc.sig, desc + " raised %r" % (exc,))], info
+        if st == "ret":
+            g0, itv, ix, ln, sz = read()
+            if not exp:
+                return [Vb("list_constraint_violated", "a pinned assignment that violates a list constraint was returned",
+                           desc + ": statement #%s is false there" % sem.first_false(stmts, types, env_of(s0, vs)))], info
+            if g0 != s0 or itv != vs:
+                return [Vb("list_constraint_violated", "pinned values are not the values read back", desc + " read back s0=%d l=%s" % (g0, itv))], info
+        elif exp:
+            return [Vb("spurious_solve_failure", "pinned member", desc + " raised SolveFailure although every statement holds there")], info
+    return [], info
+
+
 def couples(case):
     for s in case["prog"]["classes"][0]["blocks"][0]["stmts"]:
         t = cjson(s)
@@ -739,6 +1094,17 @@ def body(case, acc):
         for o_ in case["ops"]:
             acc.label("op(obj):" + o_[0])
         return vios
+    if case.get("biglist"):
+        acc.case(case, info.get("returned", 0) > 0 and info.get("probes", 0) > 1 and couples(case), sample=big_text(case))
+        acc.label("family:big lists (3-10 elements of 4-32 bits, solution-first)")
+        l_ = case["prog"]["classes"][0]["lists"][0]
+        acc.label("big:size:%d" % l_["size"])
+        acc.label("big:width:%d%s" % (l_["elem"]["w"], "s" if l_["elem"]["signed"] else "u"))
+        acc.label("big:probe:member", info.get("probe_member", 0))
+        acc.label("big:probe:non-member", info.get("probe_nonmember", 0))
+        for s_ in case["prog"]["classes"][0]["blocks"][0]["stmts"]:
+            acc.label("big:stmt:" + (s_[0] if s_[0] != "expr" else ("sum" if '"sum"' in cjson(s_) else "inl" if s_[1][0] == "inl" else "subscripts")))
+        return vios
     nt = info.get("returned", 0) > 0 and info.get("len2") and couples(case)
     acc.case(case, bool(nt), sample=text_of(case))
     cls = case["prog"]["classes"][0]
@@ -755,11 +1121,13 @@ def body(case, acc):
 
 def shards(tier):
     return [{"i": i, "n": 90 if tier == "quick" else 2500} for i in range(15)] + \
-        [{"kind": "objlist", "i": 0, "n": 250 if tier == "quick" else 6000}]
+        [{"kind": "objlist", "i": 0, "n": 250 if tier == "quick" else 6000}] + \
+        [{"kind": "biglist", "i": i, "n": 120 if tier == "quick" else 3000} for i in range(4 if tier == "quick" else 8)]
 
 
 def run_shard(spec, seed, tier, acc):
-    hyp.drive(objlist_cases() if spec.get("kind") == "objlist" else cases(), body, seed, spec["n"], acc)
+    strat = {"objlist": objlist_cases, "biglist": biglist_cases}.get(spec.get("kind"), cases)()
+    hyp.drive(strat, body, seed, spec["n"], acc)
 
 
 def replay(case):
